@@ -203,11 +203,20 @@ class Sweep:
                             dims.append(_dims)
         items = dict(self.items)
         for group in map(at_least_tuple, dims):
-            # unhashable values and unknown names are left to `generate`, as before
-            with contextlib.suppress(TypeError, KeyError):
+            # unknown names are left to `generate`, as before
+            with contextlib.suppress(KeyError):
                 seqs = [self.items[k] for k in group]
                 if len({len(seq) for seq in seqs}) == 1:  # else `generate` raises
-                    rows = list(dict.fromkeys(zip(*seqs)))
+                    try:
+                        rows = list(dict.fromkeys(zip(*seqs)))
+                    except TypeError:  # unhashable values: compare the rows instead
+                        rows = []
+                        try:
+                            for row in zip(*seqs):
+                                if row not in rows:
+                                    rows.append(row)
+                        except (TypeError, ValueError):  # values without a usable `==` are left as they are
+                            continue
                     items.update({k: [row[i] for row in rows] for i, k in enumerate(group)})
         return Sweep(
             items,
